@@ -55,8 +55,20 @@ ALL = {
    text="Exploration. lerp = a + (b-a)t decided exactly over Q and Fp for every VectorSpace implementation (Vector1-4, Quaternion, Matrix2-4). nlerp/slerp checked on f64 unit-quaternion pairs in the classes generic / nearly parallel / nearly opposite / on the 0.9995 hand-over (delta 1e-12..1e-2, both signs of the dot product) / orthogonal / equal / exactly opposite with t in {0,1} and U[0,1], against the statement's validity predicate: unit, in the plane of a and b', on the shorter arc, exact endpoints, slerp arc = t*Omega within 1e-9 (1e-5 above the hand-over).",
    note=EX+"The arc is measured as 2 atan2(|a-b'|,|a+b'|); the frame used for the in-plane test is known to eps/Omega, which is added to the tolerance; either target accepted when |a.b| <= 1e-12.",
    technique="property-based testing: exact-field oracle (lerp) + validity predicate with threshold-targeted generators (nlerp/slerp)", design="6/C14"),
+ "C08": dict(
+   text="Exploration. One generic law-checker (composition on points and vectors, concat_self, one(), displacement independence, inverse presence and undoing, inverse_transform_vector) is instantiated for all five Transform impls over Q and Fp with exactly unit rotations, zero/negative scales, singular and fully projective matrices; Decomposed-specific clauses (s*t, explicit formulas, Matrix4/Matrix3::from commuting with apply/compose/invert/one) exactly; the |scale|>1e-6 threshold clause on f64 with scales 0, 5e-324..1e-6, just above 1e-6, ordinary.",
+   note=EX+"Vector clauses for matrix impls are asserted on affine matrices only; for 0<|scale|<=1e-6 either None or a correct inverse is accepted; f64 tolerances are eps*(|p|+|disp|/|scale|).",
+   technique="property-based testing: generic law checker over all Transform implementations, exact fields + f64 threshold classes", design="6/C08"),
+ "C09": dict(
+   text="Exploration. Every look_to/look_at entry point (Matrix4 rh/lh, Matrix3 rh/lh, Quaternion, Basis3, Transform impls of Matrix4, Matrix3, Decomposed<_,Quaternion>, Decomposed<_,Basis3>, and the 2-D Matrix2/Basis2 look_at / look_at_stable) is checked against the statement's predicate (rigid, det +1, eye to origin, d to -z / +z, up into x=0,y>=0, mutual agreement) exactly in Q on rational frames for which every normalisation and the matrix->quaternion step are rational, and within a conditioning-scaled tolerance in f64 on arbitrary eye/dir/up.",
+   note=EX+"General position (up not parallel to dir; f64: >= 0.05 rad). The deprecated Transform::look_at is not claimed.",
+   technique="property-based testing: validity-predicate oracle on exact rational frames (Q) + toleranced f64 search", design="6/C09"),
+ "C10": dict(
+   text="Exploration. ortho/frustum/perspective/planar (free functions and struct conversions) against the mapping stated in the property: corner images, affinity, w=-z, perspective == frustum of the symmetric window (independent glFrustum table), to_perspective fields, planar window/near/far/focal point; exactly in Q (Fp for ortho) with named angles for fovy, and within 1e-11 (conditioning-scaled) in f64 including Deg input, fovy=0 and negative fovy for planar. Rejection: a valid tuple with exactly one of the 15 preconditions broken, at the boundary and beyond, must panic (catch_unwind) and the unbroken tuple must not; all 15 reasons are required classes.",
+   note=EX+"Valid domain excludes l==r, b==t, n==f and height==0 (division by zero).",
+   technique="property-based testing: mapping-predicate oracle (exact Q + f64) and single-fault rejection enumeration", design="6/C10"),
 }
-BUILT = ["C01","C02","C03","C04","C05","C06","C07","C11","C12","C13","C14","C15"]
+BUILT = ["C01","C02","C03","C04","C05","C06","C07","C08","C09","C10","C11","C12","C13","C14","C15"]
 CLAIMED = {k: v for k, v in ALL.items() if k in BUILT}
 PENDING = {}
 
